@@ -144,6 +144,24 @@ def _solve_one(i):
         return (i, ob.forced, 0.0, "alias-ai", {"unsat": "no effect outside the frame in the may-alias abstraction",
                                                 "sat": "a definite in-place write outside the frame",
                                                 "unknown": "possible effect through an unmodelled call or an unknown value"}[ob.forced], None)
+    if _CFG.get("pass2") and not ob.expect_sat:
+        # second pass (obligations the first schedule left undecided, typically under machine load): long per-seed attempts, then cvc5
+        s = z3.Solver()
+        for h in ob.formula():
+            s.add(h)
+        for seed in (42, 2, 3, 0, 7, 11):
+            s.set("random_seed", seed)
+            s.set("timeout", 20000)
+            try:
+                r = s.check()
+            except z3.Z3Exception:
+                r = z3.unknown
+            if r != z3.unknown:
+                return (i, str(r), time.time() - t0, "z3", "second pass, seed %d" % seed, None)
+        r2, d2 = run_cvc5(s.to_smt2(), 60)
+        if r2 == "unsat":
+            return (i, "unsat", time.time() - t0, "cvc5", d2, None)
+        return (i, "unknown", time.time() - t0, "z3", "timeout in both passes", None)
     s = z3.Solver()
     first = min(timeout_ms, 3000) if (ob.expect_sat or _CFG.get("cvc5", True)) else timeout_ms
     s.set("timeout", first)
@@ -164,13 +182,23 @@ def _solve_one(i):
     if r == z3.unknown and not ob.expect_sat and _CFG.get("cvc5", True):
         # schedule: z3 3 s -> z3 with two other random seeds (3 s each; quantifier instantiation is heuristic and a
         # different seed often succeeds at once) -> cvc5 (full budget) -> z3 (full budget)
-        for seed in (1, 2, 3, 7, 42):
-            s.set("random_seed", seed)
-            s.set("smt.random_seed", seed) if False else None
-            try:
-                r = s.check()
-            except z3.Z3Exception:
-                r = z3.unknown
+        # several verdicts depend on the random seed only (quantifier instantiation order): first a quick sweep, then -- for
+        # budgeted obligations and in the second pass -- a sweep with longer per-seed time, so that a loaded machine does not
+        # turn a 2-second proof into an 'unknown'
+        per_seed = max(3000, min(timeout_ms // 6, 20000))
+        sweeps = [((1, 2, 3, 7, 42), 3000)]
+        if per_seed > 3000:
+            sweeps.append(((42, 2, 3, 5, 11, 13, 17, 19), per_seed))
+        for seeds, tmo in sweeps:
+            s.set("timeout", tmo)
+            for seed in seeds:
+                s.set("random_seed", seed)
+                try:
+                    r = s.check()
+                except z3.Z3Exception:
+                    r = z3.unknown
+                if r != z3.unknown:
+                    break
             if r != z3.unknown:
                 break
     if r == z3.unknown and not ob.expect_sat and _CFG.get("cvc5", True) and timeout_ms > 12000:
@@ -341,11 +369,11 @@ def run_cvc5(smt2, tlimit_s):
         os.unlink(path)
 
 
-def solve_all(obligations, entry_heaps, timeout_ms=20000, procs=None, cvc5=True):
+def solve_all(obligations, entry_heaps, timeout_ms=20000, procs=None, cvc5=True, pass2=False):
     """-> list of dicts (one per obligation) with result in {unsat, sat, unknown, error}"""
     global _OBS, _CFG
     _OBS = obligations
-    _CFG = {"timeout_ms": timeout_ms, "entry_heaps": entry_heaps, "cvc5": cvc5}
+    _CFG = {"timeout_ms": timeout_ms, "entry_heaps": entry_heaps, "cvc5": cvc5, "pass2": pass2}
     procs = procs or int(os.environ.get("PV_PROCS", "16"))
     results = [None] * len(obligations)
     if not obligations:
